@@ -81,6 +81,7 @@ func scenC04(w *vsim.World, spec *vsim.Spec) {
 	}
 	sent := map[string][]tentry{}
 	untrashStarted := map[string]int{}
+	deleteStarted := map[string]int{} // DELETE requests ever started, per hash
 	twSeen := map[string][]int64{} // hash -> stored mtimes the trash worker saw when it stat'ed the block
 	// operations in flight (maintained by the client tasks) and their values at the instant the
 	// last filesystem step was granted: a directory change observed now was made by that step
@@ -291,6 +292,7 @@ func scenC04(w *vsim.World, spec *vsim.Spec) {
 					}
 				case 3:
 					liveDelete[h]++
+					deleteStarted[h]++
 					r := node.do("DELETE", "/"+h, sysToken, nil)
 					liveDelete[h]--
 					w.Logf("%s DELETE %s -> %d %s", tag, h[:8], r.code, strings.TrimSpace(string(r.body)))
@@ -338,6 +340,7 @@ func scenC04(w *vsim.World, spec *vsim.Spec) {
 					}
 					em0 := liveEmpty
 					alone := liveUntrash[h] == 0
+					del0 := deleteStarted[h]
 					untrashStarted[h]++
 					seq0 := untrashStarted[h]
 					liveUntrash[h]++
@@ -350,7 +353,11 @@ func scenC04(w *vsim.World, spec *vsim.Spec) {
 							return
 						}
 						g := node.do("GET", "/"+h, "usertoken", nil)
-						if g.code != 200 || !bytes.Equal(g.body, blocks[o.blk]) {
+						if deleteStarted[h] != del0 || liveDelete[h] != 0 || len(sent[h]) != 0 {
+							// another client's DELETE / trash list ran meanwhile (possibly after a clock
+							// jump past the TTL): it may legitimately have trashed the block again
+							w.Probe("untrash-followed-by-concurrent-delete")
+						} else if g.code != 200 || !bytes.Equal(g.body, blocks[o.blk]) {
 							w.Violation("c04/untrashed-block-not-served", "%s: untrash of %s succeeded but GET answers %d", tag, h[:8], g.code)
 							return
 						}
